@@ -50,7 +50,7 @@ pub struct RpcLogEntry {
     pub taken: bool,
 }
 
-#[derive(Default)]
+#[derive(Default, Clone)]
 pub struct Faults {
     /// transport errors for the RPC calls (send/get) whose global index is in this set
     pub rpc_fail_at: HashSet<usize>,
@@ -64,6 +64,7 @@ pub struct Faults {
     pub rpc_down_after: Option<usize>,
 }
 
+#[derive(Clone)]
 pub struct NodeState {
     /// active chain, index = height (genesis at 0)
     pub chain: Vec<Block>,
@@ -282,6 +283,7 @@ fn raw(v: serde_json::Value) -> Box<RawValue> {
 impl jsonrpc::client::Transport for SimTransport {
     fn send_request(&self, req: jsonrpc::Request) -> Result<jsonrpc::Response, jsonrpc::Error> {
         // crash points immediately before / after every node RPC (never while holding the node's own lock)
+        crate::conc::rpc_yield();
         teos_common::verif::crashpoint("rpc:before");
         let r = self.handle(req);
         teos_common::verif::crashpoint("rpc:after");
